@@ -62,6 +62,14 @@ func probe(a arg) (string, string) {
 	if err != nil || string(out) != want {
 		return "formatter_text", fmt.Sprintf("DefaultFormatter = %q, %v; want %q", out, err, want)
 	}
+	if a.D == 1 || a.D >= 28 || a.Heavy { // the text must not depend on the destination buffer's spare capacity
+		for _, spare := range []int{1, 8, 10, 11, 16, 64} {
+			out, err := date.DefaultFormatter(make([]byte, 0, spare), d, f)
+			if err != nil || string(out) != want {
+				return "formatter_text_with_spare_capacity", fmt.Sprintf("DefaultFormatter(make([]byte,0,%d)) = %q, %v; want %q", spare, out, err, want)
+			}
+		}
+	}
 	if a.Basic {
 		if s := fmt.Sprintf("%b", d); s != want {
 			return "verb_b", fmt.Sprintf("%%b = %q want %q", s, want)
